@@ -26,6 +26,16 @@ def cps(s):
     return [ord(ch) for ch in s]
 
 
+def sum_is_exact(terms):
+    k = 0
+    for t in terms:
+        d = t.denominator
+        if d & (d - 1):
+            return False
+        k = max(k, d.bit_length() - 1)
+    return sum(abs(t.numerator) * ((1 << k) // t.denominator) for t in terms) < (1 << 53)
+
+
 def parse_lines(lines):
     """the documented text format: header, then cues TAB outcomes, tokens joined by '_'"""
     evs = []
@@ -196,8 +206,11 @@ def run(rep, pool, driver, tier):
             exact = rep_l[k].get('bits', 9999) <= 53
             for e_i, (cs, _) in enumerate(evs):
                 for o_i, o in enumerate(outs):
-                    want = sum((w.get((o, cu), Fraction(0)) for cu in set(cs)), Fraction(0))
-                    if not close(Fraction(frac(res['activations'][e_i][o_i])), want, exact):
+                    terms = [w.get((o, cu), Fraction(0)) for cu in set(cs)]
+                    want = sum(terms, Fraction(0))
+                    # the float sum is exact only if every partial sum (in any order) is a double: all
+                    # terms on one dyadic grid 2^-k and sum |terms| < 2^(53-k); otherwise tolerance
+                    if not close(Fraction(frac(res['activations'][e_i][o_i])), want, exact and sum_is_exact(terms)):
                         prob = 'stage activation: event %d outcome %r: %s, sum of the returned weights %s' % (
                             e_i, o, float(frac(res['activations'][e_i][o_i])), float(want))
                         break
